@@ -78,7 +78,7 @@ Definition and_then {A B : Type} (x : run A) (f : A -> list reply -> run B) : ru
   | (tr, Blocked, rest) => (tr, Blocked, rest)
   end.
 
-Notation "'let*' ( r , s ) := x 'in' y" := (and_then x (fun r s => y))
+Local Notation "'let*' ( r , s ) := x 'in' y" := (and_then x (fun r s => y))
   (at level 200, x at level 100, r name, s name, right associativity).
 
 Definition finish {A : Type} (v : A) (script : list reply) : run A := ([], Done v, script).
